@@ -17,6 +17,7 @@ import YtkProofs.FuncsLemmas
 import YtkProofs.GapAnalytics
 import YtkProofs.GapAnalyticsResolve
 import YtkProofs.GapAnalyticsNofix
+import YtkProofs.FuncsDomAnalytics
 
 namespace Ytk.C19
 open Ytk.Analytics
@@ -459,5 +460,27 @@ theorem Unique_loop1_eq (xs acc : List String) : Funcs.Unique_loop1 xs acc = Ana
 /-- utils.Unique, as translated from the source, is the model's `Analytics.unique []` (all lists) -/
 theorem Unique_generated_eq_model (xs : List String) : Funcs.Unique xs = Analytics.unique [] xs := by
   simp [Funcs.Unique, Unique_loop1_eq]
+
+end Ytk.C19
+
+/-! ## xlate7d: the REGENERATED translation of the resolvers' pure helpers (Generated/FuncsAnalytics.lean) -/
+namespace Ytk.C19
+open Ytk.Generated
+
+/-- `subtract(from, what)` (the orphan keys of the dependency report), for all lists -/
+theorem subtract_generated_eq_model (frm what : List String) :
+    FuncsAnalytics.subtract frm what = Analytics.subtract frm what :=
+  FuncsDomAnalytics.subtract_generated_eq_model frm what
+
+/-- `possiblyContainsPlaceholder(in)` (the default placeholder matcher of the placeholder resolver): `strings.Index`,
+    `in[idx:]`, `strings.Index` again — the model's `${` … `}` scan, for all strings; never panics -/
+theorem possiblyContainsPlaceholder_generated_eq_model (s : String) :
+    FuncsAnalytics.possiblyContainsPlaceholder s = .ok (Analytics.possiblyContainsPlaceholder s) :=
+  FuncsDomAnalytics.possiblyContainsPlaceholder_generated_eq_model s
+
+theorem nonvacuous_analytics_generated :
+    FuncsAnalytics.subtract ["a", "b", "c"] ["b"] = ["a", "c"] ∧
+    FuncsAnalytics.possiblyContainsPlaceholder "x${y}z" = .ok true ∧ FuncsAnalytics.possiblyContainsPlaceholder "}x${y" = .ok false := by
+  decide +kernel
 
 end Ytk.C19
